@@ -32,6 +32,7 @@ FORMULAS = [
     "0 + A + a", "0 + n + a", "n + b", "0 + n:A + b",
     "3:A:B", "0 + 3:A:B", "a + 2:A:B", "2.5:a:A:B", "0 + 2:A",
     "a + I(3)", "I(2):a + A",  # factors that evaluate to a constant
+    "k + a", "0 + k:A",  # 32-bit integers that float32 cannot hold
     # contrasts with non-default options (each has its own dense and sparse code path)
     "C(A, contr.diff(backward=False)) + a", "a + a:C(A, contr.diff(backward=False))", "C(A, contr.helmert(reverse=False, scale=True))",
     "C(A, contr.poly(scores=[1, 2, 4])) + b", "C(A, contr.SAS('x')):a", "C(A, contr.custom([[1, 0], [0, 1], [-1, -1]]))",
@@ -43,6 +44,7 @@ def frames():
         "y": [1.0, 2.0, 3.0, 4.0, 5.0, 6.0],
         "a": [2.0, 3.0, 5.0, 7.0, 11.0, 13.0],
         "n": [3, 1, 4, 1, 5, 9],
+        "k": np.array([1700000077, 1600000001, 3, 2000000011, 16777217, 5], dtype="int32"),  # beyond the float32 grid
         "b": [1.5, -2.5, 3.25, 0.5, 4.75, 6.125],
         "A": pd.Series(list("xyzxyz"), dtype=object),
         "B": pd.Series(list("uuvvuv"), dtype=object),
